@@ -125,6 +125,34 @@ def marked_rules(ck):
                   "the persistent original of a node is reused under (value changed: %s, child changed: %s): a changed node is frozen as its old self" % (fv, ch), f.loc(bi))
         ck.floor("DOM", "origin reuse sites in freeze", nre, 2)
 
+    # a node that freeze() REBUILDS (a fresh CachedRef::Memory around a newly hashed Node) is reported to its parent as changed -
+    # with the literal `true`, not with a flag that only knows about the value: the node may have been rebuilt because its stem
+    # or children changed, and a parent that is told "unchanged" keeps its persistent original with the old subtree and old hash
+    f = getfn(ck, "sc", E, MT + "freeze")
+    if f:
+        nins = 0
+        for (bi, t) in f.calls(r"HashMap::<K, V, S(, A)?>::insert$|HashMap<.*>::insert$"):
+            if len(t["args"]) < 3:
+                continue
+            tup = op_place(t["args"][2])
+            if tup is None or tup[1]:
+                continue
+            for (b2, s2, it) in f.defs().get(tup[0], []):
+                rv = it.get("rv", {}) if s2 != "t" else {}
+                if rv.get("k") != "agg" or len(rv.get("ops", [])) != 2:
+                    continue
+                o = f.origins(rv["ops"][1], deep=False)
+                fresh = any(a[0] == "agg" and a[1].endswith("CachedRef::Memory") for a in o) or has_call_origin(o, r"Hashed::<.*>::new$|Hashed::new$")
+                if not fresh:
+                    continue
+                nins += 1
+                k0 = op_const(rv["ops"][0])
+                flag = const_int(k0) if k0 is not None else None
+                ck.ob("DEFUSE", f.path, "rebuilt-node-reported-as-changed#%d" % nins, flag == 1,
+                      "a rebuilt node is recorded with changed = true" if flag == 1 else
+                      "a rebuilt node is recorded with a computed flag instead of `true`: when only its stem or children changed the parent keeps its persistent original (old contents, old hash)", f.loc(b2))
+        ck.floor("DEFUSE", "rebuilt nodes recorded in freeze", nins, 2)
+
     # freeze_value reports `changed = false` only for a link that already exists in persistent storage (a clone of a borrowed
     # value, or no value at all); a link it creates itself (Link::new(InlineOrHashed::new(..))) is new data and must be
     # reported as changed, otherwise freeze() keeps the node's persistent original and the written value is lost
